@@ -1023,7 +1023,7 @@ func checkPrivNotPub(c *Ctx, rule string) {
 	key := "ImportKeystore:final-private-passphrase-differs-from-public"
 	var cmp *ssa.Call
 	var pwArg ssa.Value
-	allInstrs(f, func(in ssa.Instruction) {
+	allInstrsNew(f, func(in ssa.Instruction) { // the validation may sit in a phase helper the reference tree does not have
 		cl, ok := in.(*ssa.Call)
 		if !ok || !(isCall(cl, "bytes.Compare") || isCall(cl, "bytes.Equal")) || len(cl.Call.Args) != 2 {
 			return
@@ -1062,16 +1062,23 @@ func checkPrivNotPub(c *Ctx, rule string) {
 	cc := cellOfLoad(pwArg)
 	ok := true
 	why := ""
+	across := false
 	for _, u := range under {
 		if u == pwArg {
 			continue
 		}
 		if uc := cellOfLoad(u); uc == nil || cc == nil || uc != cc {
+			if instrParent(u) != instrParent(pwArg) && sameOriginSets(u, pwArg) {
+				// compared and stored in different phase helpers: exactly the same reaching definitions
+				// (a comparison made before the defaulting sees fewer)
+				across = true
+				continue
+			}
 			ok = false
 			why = "the value compared with the public passphrase is not the variable handed on as the new private passphrase"
 		}
 	}
-	if ok && cc != nil {
+	if ok && cc != nil && !across {
 		after := reach(f, cmp, nil, nil)
 		for _, g := range withClosures(f) {
 			g := g
